@@ -656,31 +656,72 @@ var guards = []guardSpec{
 	{"DB", "Put", "valueTooLargeGuard", "errValueTooLarge"},
 }
 
-// pureDefine: `x := e` with one variable, e free of calls other than conversions, len and
+// pureDefine: `x := e` (or `x, y := e1, e2`), the e free of calls other than conversions, len and
 // translated functions (checked when it is translated; here only the statement shape).
-func pureDefine(s ast.Stmt) (*ast.Ident, ast.Expr, bool) {
+func pureDefine(s ast.Stmt) ([]*ast.Ident, []ast.Expr, bool) {
 	as, ok := s.(*ast.AssignStmt)
-	if !ok || as.Tok != token.DEFINE || len(as.Lhs) != 1 || len(as.Rhs) != 1 {
+	if !ok || as.Tok != token.DEFINE || len(as.Lhs) != len(as.Rhs) {
 		return nil, nil, false
 	}
-	id, ok := as.Lhs[0].(*ast.Ident)
-	if !ok || id.Name == "_" {
-		return nil, nil, false
+	var ids []*ast.Ident
+	for _, l := range as.Lhs {
+		id, ok := l.(*ast.Ident)
+		if !ok || id.Name == "_" {
+			return nil, nil, false
+		}
+		ids = append(ids, id)
 	}
 	impure := false
-	ast.Inspect(as.Rhs[0], func(n ast.Node) bool {
-		switch n.(type) {
-		case *ast.FuncLit, *ast.UnaryExpr:
-			if u, ok := n.(*ast.UnaryExpr); ok && (u.Op == token.ARROW || u.Op == token.AND) {
-				impure = true
+	for _, r := range as.Rhs {
+		ast.Inspect(r, func(n ast.Node) bool {
+			switch n.(type) {
+			case *ast.FuncLit, *ast.UnaryExpr:
+				if u, ok := n.(*ast.UnaryExpr); ok && (u.Op == token.ARROW || u.Op == token.AND) {
+					impure = true
+				}
+				if _, ok := n.(*ast.FuncLit); ok {
+					impure = true
+				}
 			}
-			if _, ok := n.(*ast.FuncLit); ok {
-				impure = true
+			return true
+		})
+	}
+	return ids, as.Rhs, !impure
+}
+
+// skippableGuard: `if c { return ... }` with a condition free of calls other than len and
+// conversions - it changes nothing, definitions in front of it still hold behind it.
+func skippableGuard(s ast.Stmt) bool {
+	is, ok := s.(*ast.IfStmt)
+	if !ok || is.Init != nil || is.Else != nil || len(is.Body.List) != 1 {
+		return false
+	}
+	ret, ok := is.Body.List[0].(*ast.ReturnStmt)
+	if !ok {
+		return false
+	}
+	pure := true
+	check := func(n ast.Node) bool {
+		switch x := n.(type) {
+		case *ast.CallExpr:
+			id, ok := x.Fun.(*ast.Ident)
+			if !ok || (id.Name != "len" && id.Name != "int" && id.Name != "int64" && id.Name != "uint32" && id.Name != "uint16" && id.Name != "uint64") {
+				pure = false
+			}
+		case *ast.FuncLit:
+			pure = false
+		case *ast.UnaryExpr:
+			if x.Op == token.ARROW {
+				pure = false
 			}
 		}
 		return true
-	})
-	return id, as.Rhs[0], !impure
+	}
+	ast.Inspect(is.Cond, check)
+	for _, r := range ret.Results {
+		ast.Inspect(r, check)
+	}
+	return pure
 }
 
 func (p *pkgInfo) translateGuard(g guardSpec, known map[string]bool) (def string, err string) {
@@ -759,12 +800,17 @@ func (p *pkgInfo) translateGuard(g guardSpec, known map[string]bool) (def string
 	t := newTr(p, fd, known, true)
 	// inline the run of pure definitions directly in front of the if statement
 	for i := h.idx - 1; i >= 0; i-- {
-		id, rhs, ok := pureDefine(h.block[i])
+		if skippableGuard(h.block[i]) {
+			continue
+		}
+		ids, rhs, ok := pureDefine(h.block[i])
 		if !ok {
 			break
 		}
-		if obj := p.info.Defs[id]; obj != nil {
-			t.inline[obj] = rhs
+		for j, id := range ids {
+			if obj := p.info.Defs[id]; obj != nil {
+				t.inline[obj] = rhs[j]
+			}
 		}
 	}
 	c := t.cond(h.is.Cond)
